@@ -73,9 +73,18 @@ PROPS = {
         trusted=["pointer-level model of list.DList (address-indexed store) for LStack"],
         assumptions=["element type int stands for every comparable T"],
     ),
+    "C19": dict(
+        level_text="Proof: pointer-level store models of list.SList and list.DList (address 0 = embedded head, struct copies allocate) are related to the abstract sequence by an explicit representation predicate; each modelled operation preserves it and realises its sequence meaning, walks terminate, no operation panics. Tie: exhaustive small-scope + seeded correspondence on the Each sequence, First/Last/Find, errors and (verif hook) the raw prev structure; Lean relational sequence monitor on the implementation's answers.",
+        level_note="Lean kernel + standard axioms; partial: see DESIGN.md (which operations have the full Repr proof); Go pointer semantics modelled by an address-indexed store.",
+        groups=["C19"], quick_shards=16,
+        observers=("find", "each", "first", "last", "dump"),
+        rule="all sequences of <= 4 (quick) / 5 (thorough) position-parameterised edits {Unshift, Append, Shift, Pop, InsertAfter@i, InsertBefore@i, Delete@i, Replace@i, absent-value probes} with distinct inserted values, handles from Find immediately before use, Find/Each/First/Last after every edit, both list types; seeded random edit sequences up to length 80; non-trivial = at least one head-replacing edit and one interior edit; distinct = distinct op sequence",
+        exhaustive_part="all edit sequences up to the tier's bound (positions 0..3/4)",
+        assumptions=["int values stand for the generic comparable T", "inserted values are distinct and handles are fetched immediately before use (as the property states)"],
+    ),
 }
 
-HOOK_COMMITS = []
+HOOK_COMMITS = ["6c7166d"]
 
 # properties not (yet) claimed; kept current as checks are added
 NOT_APPLICABLE = []
